@@ -378,3 +378,36 @@ register("C09",
           e2e_part("C09", [("g", {"plant": ["neederr", "needcleanup"], "p_err": 0.6, "p_cleanup": 0.6, "units": [1, 2]})],
                    _pairs_plan, set(), _planted, n_quick=60, n_thorough=600, build=False, runit=False,
                    extra=_planted_oracle({"neederr": "neederr:", "needcleanup": "needcleanup:"}))])
+
+
+def _c17_part(rep, tier):
+    from . import cmdtier
+    return cmdtier.run_c17(rep, tier)
+
+
+def _c18_part(rep, tier):
+    from . import cmdtier
+    from .common import load_findings
+    dis, fails, known = cmdtier.run_c18(rep, tier)
+    for f in load_findings():
+        if f["property"] == "C18" and f["status"] == "known" and f["id"] in known:
+            rep.known.append("%s: %s" % (f["id"], f["what"]))
+            known.discard(f["id"])
+    for k in known:
+        fails.append({"stream": "c18", "why": ["regeneration depends on history (not a listed finding): " + k]})
+    return dis, fails
+
+
+register("C17",
+         "real wire binary on 1-4 packages per invocation with kinds {accepted, accepted with error/cleanup, rejected (missing), "
+         "rejected (unused), no injectors, not type-correct} x prior output {absent, same, stale, garbage, non-compiling, unwritable}, "
+         "commands gen / default form / -header_file (ok, missing) / -output_file_prefix / -tags / diff / check / show; exit status and "
+         "the hash of every file of the tree before and after compared with WireV.genExec/diffExec and with the property statement; "
+         "non-trivial = mixed package kinds or a pre-existing output file",
+         [_c17_part])
+register("C18",
+         "random histories (3-12 ops quick, 3-40 thorough) over {switch variant, gen, diff, check, delete output, clobber output with "
+         "stale/garbage/non-compiling bytes} on six source variants, executed on the real binary in one directory; exits and final bytes "
+         "compared with WireV.runH where the analysis of each variant is taken from a fresh checkout; after every successful gen: output = "
+         "fresh-checkout output, second gen is a no-op, diff = 0; non-trivial = history of >= 4 steps",
+         [_c18_part])
